@@ -153,12 +153,11 @@ def DB.top100 (db : DB) : List Addr :=
   let rows := db.addrs.filter (fun r => getB r.bals tPEG > 0)
   ((rows.foldl (fun acc r => insertIntoSorted r acc) []).take 100).map (·.addr)
 
-/-- The staker ids `GradeS` lets through: `none` = panic (an entry with fewer than two ExtIDs). -/
+/-- The staker ids `GradeS` lets through: entries with fewer than two ExtIDs (`none`) are
+    skipped, the others pass when the id is among the committed top-100 PEG holders. -/
 def sprPass (db : DB) (entries : List (Option Addr)) : Option (List Nat) :=
-  if entries.any (·.isNone) then none
-  else
-    let top := db.top100
-    some ((entries.zipIdx.filter (fun p => match p.1 with | some a => top.contains a | none => false)).map (·.2))
+  let top := db.top100
+  some ((entries.zipIdx.filter (fun p => match p.1 with | some a => top.contains a | none => false)).map (·.2))
 
 def insertGradeBlock (h : Nat) (keymr : String) (g : OprGraded) : LM Unit := do
   insertGrade { height := h, keymr := keymr, shorthashes := g.shorthashes, version := g.version, cutoff := g.cutoff, count := g.count }
@@ -322,7 +321,7 @@ def recordHistory (P : Params) (h : Nat) (blockorder : Nat) (e : TxEntry) : LM U
 /-- one entry of `ApplyTransactionBlock` -/
 def applyTxEntry (P : Params) (h : Nat) (keymr : String) (blockorder : Nat) (e : TxEntry) : LM Unit := do
   let db ← M.get
-  if e.validAt P h && !db.isReplay e.hash then do
+  if e.validAt P h && !db.isReplay e.hash && !db.isRecorded e.hash then do
     recordHistory P h blockorder e
     if e.hasConversions P then
       insertHolding { entry := e, height := h, keymr := keymr }
